@@ -332,5 +332,5 @@ def run(tier: str) -> int:
                             " (all) and a seeded sample of 60000 of depth 4") + " over + - * / ^ neg sgn with leaf / compact-term operands")
     items = [("tree", s) for s in sks + eqs + ch] + [("rewrite", s) for s in starts]
     random.Random(seed()).shuffle(items)
-    collect(rep, pmap(worker, items, budget_s=420 if tier == "quick" else 3000, chunk=8))
+    collect(rep, pmap(worker, items, budget_s=420 if tier == "quick" else 720, chunk=8))
     return rep.finish(required_reach=["tree", "rewrite"])
